@@ -49,3 +49,32 @@ def rename_module(src: str) -> str:
     return ast.unparse(tree) + "\n"
 
 
+
+
+def keywordize_module(repo, path: str) -> str:
+    """Every positional argument of a call that resolves to a repository *function* (not a method, no *args)
+    is written as a keyword argument."""
+    from sa.model import Func
+
+    m = repo.modules[path]
+    tree = ast.parse(m.source)
+    # map (lineno, col) of calls in the original tree -> callee
+    targets = {}
+    for f in m.all_funcs:
+        for call in repo.calls_in(f):
+            ts = [t for t in repo.resolve_call(f, call) if isinstance(t, Func)]
+            if len(ts) == 1 and ts[0].cls is None and ts[0].parent is None and ts[0].node.args.vararg is None and isinstance(call.func, ast.Name):
+                targets[(call.lineno, call.col_offset)] = ts[0]
+    for node in ast.walk(tree):
+        if isinstance(node, ast.Call) and (node.lineno, node.col_offset) in targets:
+            t = targets[(node.lineno, node.col_offset)]
+            if any(isinstance(a, ast.Starred) for a in node.args) or any(k.arg is None for k in node.keywords):
+                continue
+            params = t.positional_params
+            if len(node.args) > len(params):
+                continue
+            # keep the first (data) argument positional, as a developer would
+            new_kw = [ast.keyword(arg=params[i], value=a) for i, a in enumerate(node.args) if i >= 1]
+            node.args = node.args[:1]
+            node.keywords = new_kw + node.keywords
+    return ast.unparse(ast.fix_missing_locations(tree)) + "\n"
